@@ -47,6 +47,7 @@ func runC14(e *Env) {
 	// each capture reaches (decision table of sem.unmarshalText, as C03.gate / C06.parse)
 	ruleSemGate(e, "C14.parse", "C14.parse")
 	e.S.Floor("C14.parse", 18)
+	ruleNoMatchRejects(e, "C14.parse", e.Fn("C14.parse", "sem", "unmarshalText")) // … and an invalid text is an error
 }
 
 // ---- C14.range
